@@ -15,7 +15,7 @@
    outcomes, cache keys and scratch state after every call of every history; fresh-vs-shared oracle). *)
 From Coq Require Import ZArith QArith List Bool Permutation.
 From Verif.Model Require Import Result Lexer Parser Eval EvalSpec ParserStateCb ParserState.
-From Verif.Proofs Require Import ParserRoundTrip ParserStateCb ParserState ParserStateNames ParserStateEx.
+From Verif.Proofs Require Import ParserRoundTrip ParserStateCb ParserState ParserStateBr ParserStateNames ParserStateEx.
 Import ListNotations.
 
 (* ---------- exactness of the reported names ---------- *)
@@ -52,7 +52,6 @@ Proof. exact names_flatten. Qed.
    occurs as a function head, as a suffix iff it occurs as a number suffix. *)
 Theorem C10_names_exact : forall junk ops s e,
   wf_expr e = true ->
-  check_brackets (strip_spaces s) = None ->
   lex (strip_spaces s) = Some (render e) ->
   exists l, snd (step junk faithful (run junk faithful init ops) (OParse s)) = VP (VTree (flatten e) l) /\
             forall x, (In x (n_vars l) <-> In x (evars e)) /\
@@ -63,11 +62,14 @@ Proof. exact names_exact_membership. Qed.
 (* with multiplicities *)
 Theorem C10_names_exact_multiset : forall junk ops s e,
   wf_expr e = true ->
-  check_brackets (strip_spaces s) = None ->
   lex (strip_spaces s) = Some (render e) ->
   exists l, snd (step junk faithful (run junk faithful init ops) (OParse s)) = VP (VTree (flatten e) l) /\
             nperm l (enames e).
 Proof. exact names_exact_string. Qed.
+
+(* the bracket pre-pass (on characters) never rejects a string that lexes to the token text of a tree *)
+Theorem C10_brackets_accept_token_text : forall k t, lex k = Some (print t) -> check_brackets k = None.
+Proof. exact brackets_of_print. Qed.
 
 (* ---------- history independence ---------- *)
 
@@ -157,7 +159,7 @@ Proof. exact ex_with_clear. Qed.
 
 (* x(f)+2k*x : x is a function head and a variable, f only a variable, k a suffix *)
 Example C10_ex_names_hypotheses_satisfiable :
-  wf_expr e_xf = true /\ check_brackets (strip_spaces s_xf) = None /\ lex (strip_spaces s_xf) = Some (render e_xf) /\
+  wf_expr e_xf = true /\ lex (strip_spaces s_xf) = Some (render e_xf) /\
   enames e_xf = mkNames [[102%Z]; [120%Z]] [[120%Z]] [[107%Z]].
 Proof. exact ex_names_hyps. Qed.
 
